@@ -693,3 +693,31 @@ pub fn check_reported_pos(res: Option<Result<u128, ApiErr>>, ty: NumTy, q: Pos, 
     }
     Ok(())
 }
+
+/// IV for any stream kind with the classes that matter for it: CTR counter fields at boundaries,
+/// BelT IVs whose `E(IV)` is just below 2^128 or has its low 64-bit word just below 2^64
+/// (needs `D`, i.e. a cipher with both directions), plain pattern/random bytes otherwise.
+/// Fixed tape footprint: 5 + 1 + 4 + 1 bytes.
+pub fn gen_stream_iv(t: &mut Tape<'_>, kind: StreamKind, bs: usize, c: &dyn CipherObj, has_dec: bool) -> Vec<u8> {
+    match kind {
+        StreamKind::Ctr(w, be) => gen_ctr_iv(t, bs, w, be),
+        StreamKind::Belt => {
+            let mut iv = vp_base::tape::gen_bytes(t, bs);
+            let class = t.byte();
+            let a = t.u32() as u128;
+            let j = t.idx(4) as u128;
+            if has_dec && class >= 128 {
+                let s0 = if class >= 192 { u128::MAX - j } else { ((a | 1) << 64) | (u64::MAX as u128 - j) };
+                let mut b = s0.to_le_bytes().to_vec();
+                c.dec(&mut b);
+                iv = b;
+            }
+            iv
+        }
+        StreamKind::Ofb => {
+            let iv = vp_base::tape::gen_bytes(t, bs);
+            let _ = (t.byte(), t.u32(), t.idx(4));
+            iv
+        }
+    }
+}
